@@ -16,6 +16,14 @@ Proof. exact roundtrip. Qed.
 Theorem C05_roundtrip_equiv : forall v w, json_equiv v w -> decode (encode v) = norm w.
 Proof. exact roundtrip_equiv. Qed.
 
+(* the normal form is idempotent, hence the literal statement: what comes back from JSON is
+   JSON-equivalent (equal after the float64 normal form) to what went in, for all values *)
+Theorem C05_norm_idempotent : forall v, norm (norm v) = norm v.
+Proof. exact norm_idem. Qed.
+
+Theorem C05_roundtrip_json_equiv : forall v, json_equiv (decode (encode v)) v.
+Proof. exact roundtrip_json_equiv. Qed.
+
 (* prepare inside a global transaction, for every action, xid, parameter struct and coordinator reply *)
 Theorem C05_register_first : forall a xid fs r,
   let '(evs, ok) := prepare a true xid fs r in
@@ -30,6 +38,10 @@ Proof. exact register_first. Qed.
 Theorem C05_context : forall a fs,
   exists c, ctx_of (AJson (app_data a fs)) = Some c /\ GMap c = norm (captured a fs).
 Proof. exact context_equiv. Qed.
+
+Theorem C05_context_json_equiv : forall a fs,
+  exists c, ctx_of (AJson (app_data a fs)) = Some c /\ json_equiv (GMap c) (captured a fs).
+Proof. exact context_json_equiv. Qed.
 
 (* the table regenerated from TCCResourceManager.BranchCommit / BranchRollback and the processors in the
    CURRENT source (coq/Gen/TccTable.v): commit calls Commit with fence phase commit and maps success /
